@@ -770,6 +770,9 @@ class Node:
         if new_parent._tree is not self._tree:
             raise NotImplementedError("Can only move nodes inside same tree")
 
+        if new_parent is self or new_parent.is_descendant_of(self):
+            raise ValueError(f"Cannot move {self} below itself or a descendant")
+
         del self._parent._children[_index_of(self._parent._children, self)]
         if not self._parent._children:  # store None instead of `[]`
             self._parent._children = None
